@@ -113,6 +113,7 @@ func (m *outgoingStreamsMap[T]) OpenStreamSync(ctx context.Context) (T, error) {
 		case <-waitChan:
 		}
 
+		verifhook.Point("streams.openSync.afterWake")
 		m.mutex.Lock()
 		if m.closeErr != nil {
 			return *new(T), m.closeErr
